@@ -73,7 +73,7 @@ def postOp : Handler := fun req => do
       (if g.any (·.attrs) then "+attrs" else "") ++ s!"+n{g.length}"
     pure (Json.mkObj [("model", model), ("match", Json.bool (model == implN)), ("judge", judgePost g impl), ("branch", Json.str br)])
 
-def refOf (j : Json) : Ref := { to := charsD j "to", map := boolD j "map", vec := boolD j "vec", arr := boolD j "arr" }
+def refOf (j : Json) : Ref := { to := charsD j "to", map := boolD j "map", vec := boolD j "vec", arr := boolD j "arr", wrap := boolD j "wrap" }
 def fldOf (j : Json) : Fld :=
   { name := charsD j "name", refs := (listD j "refs").map refOf, nested := boolD j "nested", len := boolD j "len", sep := boolD j "sep", sepStr := boolD j "sepStr", dur := boolD j "dur", opt := boolD j "opt", hdrOpt := boolD j "hdrOpt" }
 def itemOf (j : Json) : Item :=
@@ -97,7 +97,7 @@ def violStr : Viol → String
   | .undefinedType n => s!"type {String.ofList n} is mentioned but not defined"
   | .privateAcross f n => s!"{String.ofList f}.rs names {String.ofList n}, which is private to types.rs"
   | .headerOptMismatch it => s!"{String.ofList it}: the HeaderMap conversion reads a non-Option member with `if let Some(..)`"
-  | .serde it t ser m a => s!"{String.ofList it} has {if ser then "Serialize" else "Deserialize"} but its member type {String.ofList t} has not{if m then " (through a map)" else if a then " (through a nested array)" else ""}"
+  | .serde it t ser m a w => s!"{String.ofList it} has {if ser then "Serialize" else "Deserialize"} but its member type {String.ofList t} has not{if m then " (through a map)" else if a then " (through a nested array)" else if w then " (wrapped payload of a response enum)" else ""}"
   | .nestedNoValidate it t => s!"{String.ofList it}: validate(nested) on a member of type {String.ofList t}, which has no Validate"
   | .lengthNeedsSer it t => s!"{String.ofList it}: validate(length) on Vec<{String.ofList t}>, and {String.ofList t} has no Serialize"
   | .dupParam it => s!"{String.ofList it}::new has two parameters of one name"
